@@ -396,7 +396,8 @@ func (t nilnessTable) nilnessOf(v ssa.Value) nilness {
 	case *ssa.SliceToArrayPointer:
 		nn := t.nilnessOf(v.X)
 		// Get the length of underlying array pointer of slice
-		if v.Type().(*types.Pointer).Elem().Underlying().(*types.Array).Len() > 0 {
+		// The result type may be a named pointer type, e.g., `type P *[4]byte; P(s)`.
+		if v.Type().Underlying().(*types.Pointer).Elem().Underlying().(*types.Array).Len() > 0 {
 			if nn == isnil {
 				// We know that *(*[1]byte)(nil) is going to panic because of the conversion. So
 				// return unknown to the caller, prevent useless nil deference reporting due to *
